@@ -122,17 +122,27 @@ func parseFile(s *source, src []byte) (f *ast.File, fset *token.FileSet, err err
 	return
 }
 
-// importRanges: the [lparen,rparen] byte ranges of parenthesised import declarations.
-// ast.SortImports (called by format.Source, property C23) reorders import specs
-// together with their comments inside these ranges: by design, not a C21 matter.
-func importRanges(f *ast.File, fset *token.FileSet) (r [][2]int) {
-	for _, d := range f.Decls {
-		g, ok := d.(*ast.GenDecl)
-		if !ok || g.Tok != token.IMPORT {
-			break
+// importRanges: the (lparen,rparen) byte ranges of parenthesised import declarations, found
+// on the token stream (`import` `(` … matching `)`), so that it also works on an output that
+// does not parse.  ast.SortImports (called by format.Source, property C23) reorders import
+// specs together with their comments inside these ranges: by design, not a C21 matter.
+func importRanges(toks []tokInfo) (r [][2]int) {
+	for i := 0; i+1 < len(toks); i++ {
+		if toks[i].tok != token.IMPORT || toks[i+1].tok != token.LPAREN {
+			continue
 		}
-		if g.Lparen.IsValid() && g.Rparen.IsValid() {
-			r = append(r, [2]int{fset.Position(g.Lparen).Offset, fset.Position(g.Rparen).Offset})
+		depth := 0
+		for k := i + 1; k < len(toks); k++ {
+			if toks[k].tok == token.LPAREN {
+				depth++
+			} else if toks[k].tok == token.RPAREN {
+				depth--
+				if depth == 0 {
+					r = append(r, [2]int{toks[i+1].off, toks[k].off})
+					i = k
+					break
+				}
+			}
 		}
 	}
 	return
@@ -209,7 +219,7 @@ type verdict struct {
 
 // checkComments evaluates C21 on the real formatter for the (valid) source src.
 func checkComments(s *source, src []byte, timeout time.Duration) verdict {
-	_, inC, _, inPanic := scanAll(src)
+	inT, inC, _, inPanic := scanAll(src)
 	if inPanic {
 		return verdict{ok: true, detail: "input-scan-panic"} // not a valid source for C21 (C15's matter)
 	}
@@ -222,7 +232,7 @@ func checkComments(s *source, src []byte, timeout time.Duration) verdict {
 	case r.err != nil:
 		return verdict{what: "error", nIn: len(inC), detail: r.err.Error()}
 	}
-	_, outC, _, outPanic := scanAll(r.out)
+	outT, outC, _, outPanic := scanAll(r.out)
 	if outPanic {
 		return verdict{what: "outscan", nIn: len(inC), detail: "scanner panics on the formatted output"}
 	}
@@ -233,18 +243,13 @@ func checkComments(s *source, src []byte, timeout time.Duration) verdict {
 	// import sorting: compare comments inside parenthesised import declarations as a
 	// multiset, the others as a sequence.
 	byDesign := ""
-	if fin, fsIn, err := parseFile(s, src); err == nil {
-		if fout, fsOut, err2 := parseFile(s, r.out); err2 == nil {
-			ri, ro := importRanges(fin, fsIn), importRanges(fout, fsOut)
-			if len(ri) > 0 {
-				inI, inO := splitByRanges(inC, ri)
-				outI, outO := splitByRanges(outC, ro)
-				sort.Strings(inI)
-				sort.Strings(outI)
-				if eqSeq(inO, outO) && eqSeq(inI, outI) {
-					return verdict{ok: true, nIn: len(inC), byDesign: "import-sort"}
-				}
-			}
+	if ri, ro := importRanges(inT), importRanges(outT); len(ri) > 0 {
+		inI, inO := splitByRanges(inC, ri)
+		outI, outO := splitByRanges(outC, ro)
+		sort.Strings(inI)
+		sort.Strings(outI)
+		if eqSeq(inO, outO) && eqSeq(inI, outI) {
+			return verdict{ok: true, nIn: len(inC), byDesign: "import-sort"}
 		}
 	}
 	lost, extra := multisetDiff(a, b)
